@@ -561,6 +561,35 @@ def name_flavour_rule(chk, P, key, doc, select, families, module_stems, floor):
     chk.ob(key, doc, f)
 
 
+def pull_overrides_rule(chk, P, key):
+    """A typed lookup is the untyped lookup followed by a cast - on every collection that is not a pure forwarder.  An override of
+    Props::pull that asks its *parts* for typed values makes a failed cast look like a missing key: the lookup goes on to a later,
+    shadowed value, and the generic path (which sees the override) disagrees with the type-erased one (which uses get + cast)."""
+    PROPS = "emit_core::props::Props"
+
+    def f():
+        ev = []
+        for b in P.find(trait=PROPS, method="pull"):
+            if b.is_closure:
+                continue
+            try:
+                fwd = forward_check(b)[0]
+            except Exception:
+                fwd = False
+            total = [c for x in [b] + P.closures_of(b) for c in x.calls(normal_only=True) if c.callee.get("name") == "pull"]
+            if (is_wrapper_self(b.self_ty or "") or fwd) and len(total) == 1:
+                ev.append("%s: forwarder" % b.self_ty)
+                continue
+            inner = [c for x in [b] + P.closures_of(b) for c in x.calls(normal_only=True) if c.callee.get("trait") == PROPS and c.callee.get("name") == "pull"]
+            if inner:
+                return False, ("%s answers a typed lookup by asking its parts for typed values (%d pull calls): when the first collection has the key "
+                               "with a value of another type the lookup falls through to a later, shadowed value instead of returning None, and the "
+                               "generic and type-erased paths disagree" % (b.key, len(inner))), [], inner[0].loc
+            ev.append("%s: get then cast" % b.self_ty)
+        return True, "", ev or ["no non-forwarding override of Props::pull"]
+    chk.ob(key, "no collection answers a typed lookup from its parts' typed lookups", f)
+
+
 def linear_types_rule(chk, P, key, doc, types):
     """The listed types stand for exactly one obligation each (a span to complete once, a frame to close once, a channel half whose drop
     closes the channel, a slot initialised once): none of them is Clone or Copy - a copy would discharge the obligation twice (two
